@@ -93,7 +93,16 @@ def mask_writers(run, fi, mask_name, allowed):
         op, t, st = tgt
         form = '%s%s' % ('sub' if isinstance(t, ast.Subscript) else 'whole', op)
         val = ast.unparse(st.value).replace(' ', '')
-        ok = any(f == form and (v is None or v(val)) for f, v in allowed)
+        sl = ast.unparse(t.slice).replace(' ', '') if isinstance(t, ast.Subscript) else None
+
+        def accepts(v):
+            if v is None:
+                return True
+            try:
+                return v(val, sl)
+            except TypeError:
+                return v(val)
+        ok = any(f == form and accepts(v) for f, v in allowed)
         run.check(ok, 'C18.union', fi.qual, norm_stmt(st), 'write to the aperture mask has an allowed form (%s)' % form,
                   'the aperture mask %s is written by `%s`, which is not a recorded-segment OR, the initial zero mask or the spider removal' % (mask_name, norm_stmt(st)), fi.loc(st))
     if n_w < 2:
@@ -307,6 +316,12 @@ def ids_rules(run, db):
     KID = ast.unparse(apps[0][1]) if len(apps) == 1 and isinstance(apps[0][1], ast.Name) else None
     incs = [n for n in walk_no_nested(fk.node) if isinstance(n, ast.AugAssign) and KID is not None and ast.unparse(n.target) == KID]
     ok = len(incs) == 1 and isinstance(incs[0].op, ast.Add) and ast.unparse(incs[0].value) == '1' and loop is not None and incs[0] in loop.body
+    if not ok and KID is not None:
+        # or: the id is the number of segments recorded so far (`ids.append(len(ids))`, possibly through a local): consecutive by construction
+        kdefs = [n for n in ast.walk(fk.node) if isinstance(n, ast.Assign) and any(isinstance(t_, ast.Name) and t_.id == KID for t_ in n.targets)]
+        ok = bool(kdefs) and all(ast.unparse(n.value).replace(' ', '') == 'len(%s)' % idlist for n in kdefs) and not incs
+    if not ok and len(apps) == 1 and ast.unparse(apps[0][1]).replace(' ', '') == 'len(%s)' % idlist:
+        ok = True
     run.check(ok, 'C18.ids', fk.qual, 'keystone counter', 'the keystone id counter advances by one per segment, unconditionally, in the per-segment loop', 'keystone id counter no longer advances once per segment', fk.loc(incs[0]) if incs else fk.loc())
 
 
@@ -484,13 +499,60 @@ def boundary_rules(run, db):
     run.check(gx is not None and gy is not None and gx == wx and gy == wy and isinstance(v.items[2], Const) and v.items[2].v == 1, 'C18.boundary', f.qual, 'vertices',
               'vertex k = centre + radius (sin, cos)(2 pi k/sides + rotation): on the circumscribed circle, equally spaced, stacked as (x, y) columns',
               'polygon vertices are (%s, %s), expected centre + radius (sin, cos)(2 pi k/sides + rotation)' % (gx.key() if gx is not None else '?', gy.key() if gy is not None else '?'), f.loc())
-    f = db.func(G + '_generate_mask')
-    ok = match_all(f.node, ['V_pts = truenp.stack((V_xx, V_yy), axis=2)', "V_tri = spatial.Delaunay(vertices, qhull_options='QJ Qf')", 'V_m = ~(V_tri.find_simplex(V_pts) < 0)', 'return V_m',
-                            'V_xx = truenp.array(x)', 'V_yy = truenp.array(y)']) is not None
-    run.check(ok, 'C18.boundary', f.qual, 'point in polygon', 'samples are (x, y) pairs in the vertex order; inside == a simplex of the triangulated hull was found', 'point-in-polygon wiring changed', f.loc())
+    # point in polygon, decided by interpreting regular_polygon with the vertex routine and the triangulation summarised:
+    # the hull is triangulated from the vertices of (sides, radius, center, rotation), queried with (x, y) pairs stacked on the last axis,
+    # and a sample is inside exactly when a simplex was found (index >= 0)
+    from .common import capture_calls
+    from ..core.interp import Value
+    from ..domains.pred import PredDomain, Pred, eval_pred
+    from ..domains.normdom import install_pi
+
+    class Tri(Value):
+        def __init__(self, pts):
+            self.pts = pts
     f = db.func(G + 'regular_polygon')
-    okw = match_all(f.node, ['V_v = _generate_vertices(sides, radius, center, rotation)', 'return _generate_mask(V_v, x, y)']) is not None
-    run.check(okw, 'C18.boundary', f.qual, 'wiring', 'regular_polygon passes (sides, radius, center, rotation) and (x, y) through', 'regular_polygon wiring changed', f.loc())
+    pdom = PredDomain(coords=('SIMPLEX',))
+    pit = install_pi(Interp(db, pdom))
+    queries = []
+    oe, om = pdom.call_ext, pdom.method
+
+    def call_ext(dotted, args, kwargs, node):
+        last = dotted.rsplit('.', 1)[-1]
+        if last in ('array', 'asarray') and args and pdom.rat(args[0]) is not None:
+            return args[0]
+        if last == 'stack' and args and isinstance(args[0], Tup) and len(args[0].items) == 2 and all(pdom.rat(z) is not None for z in args[0].items):
+            ax = kwargs.get('axis', args[1] if len(args) > 1 else Const(0))
+            return pdom.func_atom('stack_axis%s' % (ax.v if isinstance(ax, Const) else '?'), list(args[0].items))
+        if last == 'Delaunay' and args:
+            return Tri(args[0])
+        if dotted == 'builtins.hasattr':
+            return Const(False)
+        return oe(dotted, args, kwargs, node)
+
+    def method(v, name, args, kwargs, node):
+        if isinstance(v, Tri) and name == 'find_simplex' and args:
+            queries.append((v.pts, args[0]))
+            return pdom.sym('SIMPLEX')
+        return om(v, name, args, kwargs, node)
+    pdom.call_ext, pdom.method = call_ext, method
+    paths, vcalls = capture_calls(pit, pdom, f, lambda: {'sides': pdom.sym('sides'), 'radius': pdom.sym('radius'), 'x': pdom.sym('X'), 'y': pdom.sym('Y'),
+                                                         'center': Tup([pdom.sym('cx'), pdom.sym('cy')]), 'rotation': pdom.sym('rotation')},
+                                  {G + '_generate_vertices'}, lambda fi_, b_: pdom.sym('VERTS'))
+    rets = [p_ for p_ in paths if p_.outcome == 'return']
+    keyp = lambda v_: pdom.rat(v_).key() if v_ is not None and pdom.rat(v_) is not None else repr(v_)
+    okw = len(vcalls) == 1 and keyp(vcalls[0][1].get('sides')) == 'sides' and keyp(vcalls[0][1].get('radius')) == 'radius' and keyp(vcalls[0][1].get('rotation')) == 'rotation' \
+        and isinstance(vcalls[0][1].get('center'), Tup) and [keyp(z) for z in vcalls[0][1]['center'].items] == ['cx', 'cy']
+    run.check(okw, 'C18.boundary', f.qual, 'wiring', 'regular_polygon passes (sides, radius, center, rotation) and (x, y) through',
+              'regular_polygon hands %s to the vertex routine' % [{k: keyp(v) for k, v in c_[1].items()} for c_ in vcalls], f.loc())
+    okq = len(queries) == 1 and keyp(queries[0][0]) == 'VERTS' and keyp(queries[0][1]) == 'stack_axis2(X,Y)'
+    inside = rets[0].value if len(rets) == 1 else None
+    okin = isinstance(inside, Pred)
+    if okin:
+        PR = pdom.R
+        c_ = lambda v_: Rat(PR.const(v_))
+        okin = eval_pred(inside, {'SIMPLEX': c_(-1)}, set()) is False and eval_pred(inside, {'SIMPLEX': c_(0)}, set()) is True and eval_pred(inside, {'SIMPLEX': c_(7)}, set()) is True
+    run.check(okq and okin, 'C18.boundary', db.func(G + '_generate_mask').qual, 'point in polygon', 'samples are (x, y) pairs in the vertex order; inside == a simplex of the triangulated hull was found',
+              'the hull of %s is queried with %s and a sample counts as inside when %s' % ([keyp(q_[0]) for q_ in queries], [keyp(q_[1]) for q_ in queries], inside.key() if isinstance(inside, Pred) else repr(inside)), f.loc())
 
 
 def check(run, db, tier):
@@ -548,7 +610,9 @@ def check(run, db, tier):
                             changed = True
     inv_spiders = {'~' + x for x in tainted}
     run.group(mask_writers, run, fk, krole['amplitude_mask'], [('whole=', lambda v: v.startswith('np.zeros(')), ('subBitOr', None), ('sub=', lambda v: v == krole['mask']),
-                                                                 ('wholeBitAnd', lambda v: v in inv_spiders)])
+                                                                 ('wholeBitAnd', lambda v: v in inv_spiders),
+                                                                 # the spider removal spelled as a masked store: mask[spiders] = False
+                                                                 ('sub=', lambda v, sl: sl in tainted and v in ('False', '0'))])
     # hexagonal: centre segment branch initialises all lists together
     ifs = [n for n in walk_no_nested(fh.node) if isinstance(n, ast.If) and 'exclude' in ast.unparse(n.test) and n.orelse]
     if not ifs:
